@@ -533,3 +533,4 @@ Lemma F1_history_now_rejected :
   map o_ret xs = [Ok minFHSize; Ok 0; Err E_tooSmall] /\
   Forall2 (fun x o => o_ext x <= cap_of o) xs ops_F1.
 Proof. vm_compute. split; [reflexivity|]. repeat constructor; discriminate. Qed.
+
